@@ -197,7 +197,7 @@ func (propC16) Gen(r *Rng, run uint64, tier string) *Plan {
 		s.Bad = Pick(r, cands)
 		switch s.Bad {
 		case "start", "end":
-			s.BadTxt = Pick(r, []string{"yesterday", "12:30", "2023-13-45T00:00:00Z", "17e", "0x10", "2023-11-14", "1700000000.5.5", "2023-11-14T22:13:20", "now-1h", "1700000000s"})
+			s.BadTxt = Pick(r, []string{"yesterday", "12:30", "2023-13-45T00:00:00Z", "17e", "0x10", "2023-11-14", "1700000000.5.5", "2023-11-14T22:13:20", "now-1h", "1700000000s", "17900000000000000000", "99999999999999999999", "-99999999999999999999", "9223372036854775808"})
 		case "since":
 			s.BadTxt = Pick(r, []string{"abc", "5x", "h5", "1.5.2", "5 m", "m", "1h-30m", "5mm"})
 		case "step":
